@@ -190,6 +190,7 @@ pub fn run_to_completion(
             max_instr,
             cycle_replies: false,
             host_load: None,
+            host_load_after_list: None,
             max_slices: 0,
         };
         match &plan_left {
